@@ -4,7 +4,7 @@ from dataclasses import dataclass
 from itertools import count
 from types import CodeType
 
-from .mro import sort_types
+from .mro import Order, sort_types, typeorder
 from .recode import generate_dependent_dispatch
 from .utils import MISSING, subtler_type
 
@@ -61,6 +61,7 @@ class Candidate:
     priority: float
     specificity: tuple
     tiebreak: int
+    types: tuple = None
 
     def sort_key(self):
         return self.priority, sum(self.specificity), self.tiebreak
@@ -70,6 +71,16 @@ class Candidate:
             return True
         elif self.priority < other.priority:
             return False
+        elif self.types is not None and other.types is not None:
+            # Compare the declared types themselves: specificity levels are
+            # layers of a topological sort, so unrelated types may share a
+            # level or sit on different ones, which says nothing about them.
+            orders = [
+                typeorder(t1, t2) for t1, t2 in zip(self.types, other.types)
+            ]
+            if all(o is Order.SAME for o in orders):
+                return self.tiebreak > other.tiebreak
+            return all(o is Order.LESS or o is Order.SAME for o in orders)
         elif self.specificity != other.specificity:
             return all(
                 s1 >= s2 for s1, s2 in zip(self.specificity, other.specificity)
@@ -154,12 +165,22 @@ class MultiTypeMap(dict):
             for c in candidates:
                 specificities.setdefault(c, []).append(results[c])
 
+        def declared_types(handler):
+            # The declared types of the handler for the supplied arguments
+            types = self.type_tuples[handler]
+            named = dict(t for t in types if isinstance(t, tuple))
+            return tuple(
+                named[t[0]] if isinstance(t, tuple) else types[i]
+                for i, t in enumerate(obj_t_tup)
+            )
+
         candidates = [
             Candidate(
                 handler=c,
                 priority=self.priorities.get(c, 0),
                 specificity=tuple(specificities[c]),
                 tiebreak=self.tiebreaks.get(c, 0),
+                types=declared_types(c),
             )
             for c in candidates
         ]
